@@ -158,6 +158,7 @@ func runC13(c *Ctx) {
 	c.c13NoReacquire()
 	c.c13GlobalsSetOnce()
 	c.c13SharedListsCopied()
+	c.c13UpdatesAreAtomic()
 }
 
 // c13Formats: "delivered intact". A message that travels through the format-string position of a printf-like
@@ -502,10 +503,16 @@ func sameFieldAddr(a, b ssa.Value) bool {
 }
 
 // L4
-func (c *Ctx) c13Composite() {
-	for _, spec := range []struct{ typ, m string }{
-		{"(*MultipleLogger).Log", "Log"}, {"(*MultipleLogger).LogError", "LogError"}, {"(*MultipleWritersWithSource).Write", "Write"},
-	} {
+func (c *Ctx) c13Composite() { c.compositeForwards("L4", true) }
+
+// compositeForwards: the composite logger (and, for C13, the composite writer) forwards each call to the same-named method
+// of every member. C18 uses it as M10: Output* combines the caller's loggers with a string logger in a composite.
+func (c *Ctx) compositeForwards(rule string, writers bool) {
+	specs := []struct{ typ, m string }{{"(*MultipleLogger).Log", "Log"}, {"(*MultipleLogger).LogError", "LogError"}}
+	if writers {
+		specs = append(specs, struct{ typ, m string }{"(*MultipleWritersWithSource).Write", "Write"})
+	}
+	for _, spec := range specs {
 		f := c.fn("logs", spec.typ)
 		if f == nil {
 			continue
@@ -518,13 +525,13 @@ func (c *Ctx) c13Composite() {
 		})
 		key := fname(f)
 		if member == nil {
-			c.violate("L4", key, c.pos(f.Pos()), "no call of the members' "+spec.m+" inside a loop: messages are not delivered to every member")
+			c.violate(rule, key, c.pos(f.Pos()), "no call of the members' "+spec.m+" inside a loop: messages are not delivered to every member")
 			continue
 		}
 		argOK := len(member.Call.Args) == 1 && paramIndex(f, member.Call.Args[0]) >= 0
 		early := loopHasEarlyExit(f)
 		// the loop ranges over the whole member list: index phi from -1/0 step 1 compared with len of the slice
-		c.check(argOK && !early, "L4", key, c.ipos(member), "every member receives the caller's arguments; no early exit",
+		c.check(argOK && !early, rule, key, c.ipos(member), "every member receives the caller's arguments; no early exit",
 			map[bool]string{true: "the loop over the members can exit before the last member", false: "the members do not receive the caller's arguments unchanged"}[argOK])
 	}
 }
@@ -1037,4 +1044,97 @@ func c13OnlyArgOf(f *ssa.Function, callee string) bool {
 		}
 	})
 	return found
+}
+
+// c13UpdatesAreAtomic (L13): "composite loggers deliver every message to every member". A field that is rewritten from its own
+// previous value under the write lock (append to the list of members) must read that value under the same hold of the
+// lock. A snapshot taken before — directly, or through a getter that takes and releases the read lock — is stale by the time
+// the write lock is obtained: two concurrent updates start from the same list and the later store drops the other's
+// member, without any data race for the detector to see.
+func (c *Ctx) c13UpdatesAreAtomic() {
+	c.rule("L13", "a guarded field rewritten from its own previous value under the write lock reads that value under the same hold of the lock (no snapshot taken before the lock, directly or through a getter)", 2)
+	n := 0
+	for _, rel := range c13Pkgs {
+		for _, f := range c.srcFuncs(rel) {
+			if f.Signature.Recv() == nil || len(f.Params) == 0 || len(f.Blocks) == 0 || f.Parent() != nil {
+				continue
+			}
+			recv := f.Params[0]
+			var ls *lockset
+			allInstrs(f, func(in ssa.Instruction) {
+				st, ok := in.(*ssa.Store)
+				if !ok {
+					return
+				}
+				fa, ok := st.Addr.(*ssa.FieldAddr)
+				if !ok || fa.X != ssa.Value(recv) {
+					return
+				}
+				if ls == nil {
+					ls = computeLockset(f)
+				}
+				key, held := ls.anyHeld(st)
+				if held != lockW {
+					return
+				}
+				so := structOf(fa.X.Type())
+				fieldName := so.Field(fa.Field).Name()
+				// what the stored value is made of
+				isOwnField := func(v ssa.Value) (ssa.Instruction, bool) {
+					u, ok := v.(*ssa.UnOp)
+					if !ok || u.Op != token.MUL {
+						return nil, false
+					}
+					ofa, ok := u.X.(*ssa.FieldAddr)
+					if !ok || ofa.Field != fa.Field || ofa.X != ssa.Value(recv) {
+						return nil, false
+					}
+					return u, true
+				}
+				var stale ssa.Instruction
+				fromSelf := false
+				for _, l := range sources(st.Val, deriveOpts{through: func(n string) bool { return n == "builtin.append" || n == "slices.Clone" || n == "slices.Concat" }}) {
+					if ld, ok := isOwnField(l); ok {
+						fromSelf = true
+						if ls.at(ld, key) != lockW {
+							stale = ld
+						}
+						continue
+					}
+					// a getter of the same field called on the receiver
+					if cl, ok := l.(*ssa.Call); ok {
+						g := staticCallee(&cl.Call)
+						if g == nil || len(g.Blocks) == 0 || len(cl.Call.Args) == 0 || cl.Call.Args[0] != ssa.Value(recv) {
+							continue
+						}
+						returnsField := false
+						allInstrs(g, func(j ssa.Instruction) {
+							if r, ok := j.(*ssa.Return); ok && len(r.Results) == 1 {
+								for _, rl := range sources(r.Results[0], deriveOpts{}) {
+									if u, ok := rl.(*ssa.UnOp); ok && u.Op == token.MUL {
+										if gfa, ok := u.X.(*ssa.FieldAddr); ok && gfa.Field == fa.Field && gfa.X == ssa.Value(g.Params[0]) {
+											returnsField = true
+										}
+									}
+								}
+							}
+						})
+						if returnsField {
+							fromSelf = true
+							if ls.at(cl, key) != lockW {
+								stale = cl
+							}
+						}
+					}
+				}
+				if !fromSelf {
+					return
+				}
+				n++
+				c.check(stale == nil, "L13", fname(f)+"/"+fieldName+":read-modify-write", c.ipos(st), "the previous value is read under the same hold of the write lock",
+					"field "+fieldName+" is rewritten under the write lock from a value of the same field read at "+c.iposOr(stale)+", before the lock was taken: two concurrent updates start from the same snapshot and the later store discards what the other added — a member appended by one goroutine silently vanishes from the composite and receives no message any more (no data race is involved, the race detector stays quiet)")
+			})
+		}
+	}
+	c.Extra["read_modify_write_updates"] = n
 }
